@@ -58,6 +58,8 @@ try:
     rc, out = sh("go build ./...", cwd=wt)
     meta["builds"] = rc == 0
     tp = sorted(set(["./%s/..." % p for p in pkgs] + extra_tests))
+    if os.environ.get("TEST_PKGS"):  # exact package patterns instead (e.g. ./app/ without the always-failing app/log golden tests)
+        tp = os.environ["TEST_PKGS"].split()
     rc, out = sh("go test -count=1 -vet=off %s %s" % (("-skip '%s'" % os.environ["SKIP_TESTS"]) if os.environ.get("SKIP_TESTS") else "", " ".join(tp)), cwd=wt)
     meta["existing_tests_pass"] = rc == 0
     if rc != 0:
